@@ -34,7 +34,7 @@ TIMEOUT = {"quick": 900, "thorough": 3400}
 
 
 def gen_cases(tier: str, seed: int) -> list[dict[str, Any]]:
-    n = 48 if tier == "quick" else 1500
+    n = 48 if tier == "quick" else 12000
     cases = []
     for i in range(n):
         kind = ["random", "random", "random", "linear_levels", "linear3d", "random"][i % 6]
